@@ -447,7 +447,10 @@ def mutants_code(S, M, a, b, partner, single_statement=False, site=False):
         ls = S.rfind("\n", 0, p) + 1
         return re.match(r"[ \t]*", S[ls:p] if S[ls:p].strip() == "" else S[ls:]).group(0)
 
-    noop = re.compile(r"\s*\[\[\s*\w+\s*\]\]\s*;\s*$")         # `[[fallthrough]];` does nothing: deleting / moving it is an equivalent mutant
+    # `[[fallthrough]];` does nothing and `assert(..);` does nothing in the NDEBUG build the checks run (harness/Makefile):
+    # deleting / moving / changing them gives an equivalent program, no mutants there
+    noop = re.compile(r"\s*(\[\[\s*\w+\s*\]\]\s*;|(static_)?assert\s*\(.*\)\s*;)\s*$", re.S)
+    noops = [(s["start"], s["end"]) for s in stmts if noop.match(M[s["start"]:s["end"]])]
     stmts = [s for s in stmts if not noop.match(M[s["start"]:s["end"]])]
     simple = [s for s in stmts if s["kind"] == "simple"]
     body = [s for s in stmts if s["kind"] in ("simple", "ctrl", "fndef")]
@@ -511,7 +514,11 @@ def mutants_code(S, M, a, b, partner, single_statement=False, site=False):
                 continue
             wx, wy = written_var(tx) if x["kind"] == "simple" else None, written_var(ty) if y["kind"] == "simple" else None
             ix, iy = set(idents(tx)), set(idents(ty))
-            dep = bool(ix & iy)
+            # dependent: one writes (declares / assigns) what the other mentions, or one is a call statement (unknown effects)
+            # sharing an identifier with the other; two statements that only READ common names commute (equivalent mutant)
+            callx = x["kind"] == "ctrl" or (wx is None and "(" in tx)
+            cally = y["kind"] == "ctrl" or (wy is None and "(" in ty)
+            dep = bool((wx and wx[0] in iy) or (wy and wy[0] in ix) or ((callx or cally) and ix & iy))
             if not dep:
                 continue
             score = 0
@@ -528,7 +535,7 @@ def mutants_code(S, M, a, b, partner, single_statement=False, site=False):
         new = S[:x["start"]] + S[y["start"]:y["end"]] + S[x["end"]:y["start"]] + S[x["start"]:x["end"]] + S[y["end"]:]
         muts.append(("swap", "line %d: swap `%s` and `%s`" % (line_of(x["start"]), snippet(x), snippet(y)), new))
     # (e) operator / constant
-    ops = op_candidates(M, a, b)
+    ops = [o for o in op_candidates(M, a, b) if not any(x <= o[1] < y for x, y in noops)]
     chosen, classes = [], []
     for c in ops:
         if c[0] not in classes:
